@@ -89,6 +89,30 @@ theorem triEq_iff {a b : List Cell} :
     triEq a b = true ↔ a.length = b.length ∧
       ∀ i (h₁ : i < a.length) (h₂ : i < b.length), cellEq a[i] b[i] = true := triEq_iff_getElem
 
+/-- **the headline clause in one statement**: on well-formed cells (constructor date rules, key-sorted detail dicts)
+`a == b` is True exactly when both have the same number of cells and, position by position, the cells are of the same
+basis and agree on period, evaluation date, previous evaluation date, metadata, field names and — under every field —
+shape and numbers -/
+theorem triEq_iff_contents {a b : List Cell}
+    (ha : ∀ x ∈ a, x.datesOk = true ∧ x.md.Canon) (hb : ∀ x ∈ b, x.datesOk = true ∧ x.md.Canon) :
+    triEq a b = true ↔ a.length = b.length ∧
+      ∀ i (h₁ : i < a.length) (h₂ : i < b.length),
+        (a[i].kind = .incremental ↔ b[i].kind = .incremental) ∧ a[i].ps = b[i].ps ∧ a[i].pe = b[i].pe ∧
+        a[i].ev = b[i].ev ∧ a[i].prev = b[i].prev ∧ a[i].md = b[i].md ∧
+        a[i].values.keys.Perm b[i].values.keys ∧
+        ∀ k ∈ a[i].values.keys, ∃ x y, a[i].values.get? k = some x ∧ b[i].values.get? k = some y ∧
+          x.shape = y.shape ∧ x.data = y.data := by
+  rw [triEq_iff]
+  constructor
+  · rintro ⟨hl, h⟩
+    refine ⟨hl, fun i h₁ h₂ => ?_⟩
+    exact (cellEq_iff (ha _ (List.getElem_mem h₁)).1 (hb _ (List.getElem_mem h₂)).1
+      (ha _ (List.getElem_mem h₁)).2 (hb _ (List.getElem_mem h₂)).2).mp (h i h₁ h₂)
+  · rintro ⟨hl, h⟩
+    refine ⟨hl, fun i h₁ h₂ => ?_⟩
+    exact (cellEq_iff (ha _ (List.getElem_mem h₁)).1 (hb _ (List.getElem_mem h₂)).1
+      (ha _ (List.getElem_mem h₁)).2 (hb _ (List.getElem_mem h₂)).2).mpr (h i h₁ h₂)
+
 /-- regression of D3: no proper prefix (in particular not the empty triangle) equals the triangle -/
 theorem triEq_prefix_false {t : List Cell} {n : Nat} (h : n < t.length) :
     triEq (t.take n) t = false ∧ triEq t (t.take n) = false := by
@@ -246,6 +270,28 @@ theorem triHashKey_eq_of_triEq {a b : List Cell} {ka kb : List HKey}
     (h : triEq a b = true) (h₁ : triHashKey a = .ok ka) (h₂ : triHashKey b = .ok kb) : ka = kb :=
   triHashKey_eq_of_triEq' (fun x hx => Cell.kindOk_of_datesOk (ha x hx))
     (fun x hx => Cell.kindOk_of_datesOk (hb x hx)) h h₁ h₂
+
+/-- **equal cells are hashable together** and then hash alike: if `a == b` and `hash(a)` answers, `hash(b)` answers
+with the same key. The only value form excluded is the 0-d array (`np.array_equal(5, np.array(5))` is True while
+`hash` of the cell holding the 0-d array raises `TypeError`; see the example below). -/
+theorem hashKey_ok_of_cellEq {a b : Cell} {ka : HKey} (ha : a.datesOk = true) (hb : b.datesOk = true)
+    (h : cellEq a b = true) (za : Dict.noZeroD a.values) (zb : Dict.noZeroD b.values)
+    (h₁ : a.hashKey = .ok ka) : b.hashKey = .ok ka :=
+  Cell.hashKey_ok_of_cellEq (Cell.kindOk_of_datesOk ha) (Cell.kindOk_of_datesOk hb) h za zb h₁
+
+/-- … in both directions: equal cells without 0-d arrays are both hashable or both unhashable -/
+theorem hashable_iff_of_cellEq {a b : Cell} (ha : a.datesOk = true) (hb : b.datesOk = true)
+    (h : cellEq a b = true) (za : Dict.noZeroD a.values) (zb : Dict.noZeroD b.values) :
+    (∃ k, a.hashKey = .ok k) ↔ (∃ k, b.hashKey = .ok k) :=
+  ⟨fun ⟨k, hk⟩ => ⟨k, hashKey_ok_of_cellEq ha hb h za zb hk⟩,
+   fun ⟨k, hk⟩ => ⟨k, hashKey_ok_of_cellEq hb ha (cellEq_symm h) zb za hk⟩⟩
+
+/-- the excluded form is real: a scalar and the 0-d array holding it are `==`, the first hashes, the second does not -/
+def exScalar : Cell := { kind := .cell, ps := ⟨2020, 1, 1⟩, pe := ⟨2020, 12, 31⟩, ev := ⟨2020, 12, 31⟩, prev := none,
+                         values := [("x", .int 5)], md := default }
+def exZeroD : Cell := { exScalar with values := [("x", .arr true [] [5])] }
+example : cellEq exScalar exZeroD = true ∧ exScalar.hashKey.toBool = true ∧ exZeroD.hashKey.toBool = false := by
+  decide +kernel
 
 /-! tie to the source, regenerated on every run by `harness/translate_c02.py`: the hash DEPENDENCY
 table, probed on the live objects (change exactly one component of random objects, observe whether
@@ -422,15 +468,42 @@ theorem spec_hash {a b : List Cell} {ka kb : List HKey} (ha : ∀ x ∈ a, Spec.
   · rfl
   · simp [triHashKey_eq_of_triEq (fun x hx => (wa x hx).dates) (fun x hx => (wb x hx).dates) h h₁ h₂]
 
+/-- the cell-level hash clause holds of the model's answer `ka == kb` -/
+theorem spec_cellHash {a b : Cell} {ka kb : HKey} (ha : Spec.wfCell a = true) (hb : Spec.wfCell b = true)
+    (h₁ : a.hashKey = .ok ka) (h₂ : b.hashKey = .ok kb) :
+    Spec.cellHashClause a b (ka == kb) = true := by
+  have wa := Spec.wfCell_iff.mp ha
+  have wb := Spec.wfCell_iff.mp hb
+  unfold Spec.cellHashClause
+  rw [Spec.cellSame_eq_cellEq wa wb]
+  cases h : cellEq a b
+  · rfl
+  · simp [hashKey_eq_of_cellEq wa.dates wb.dates h h₁ h₂]
+
+/-- on wire-form (key-sorted) metadata the model's `Metadata.__eq__` meets the declarative clause -/
+theorem spec_metaEq {a b : Metadata} (ha : a.Canon) (hb : b.Canon) :
+    Spec.metaEqClause a b (a.eqv b) = true := by
+  unfold Spec.metaEqClause
+  by_cases h : a = b
+  · subst h; simp [Metadata.eqv_refl]
+  · have : a.eqv b = false := by
+      cases he : a.eqv b
+      · rfl
+      · exact absurd ((Metadata.eqv_iff_eq ha hb).mp he) h
+    simp [this, h]
+
+/-- equal metadata have equal hash keys: the model's answer `a.hashKey == b.hashKey` meets the clause -/
+theorem spec_metaHash {a b : Metadata} : Spec.metaHashClause a b (a.hashKey == b.hashKey) = true := by
+  unfold Spec.metaHashClause
+  by_cases h : a = b
+  · subst h; simp
+  · simp [h]
+
 theorem spec_mem {c : Cell} {t : List Cell} (hc : Spec.wfCell c = true) (ht : ∀ x ∈ t, Spec.wfCell x = true) :
     Spec.memClause c t (Triangle.mem c t) = true := by
   have := Spec.isIn_eq_mem (Spec.wfCell_iff.mp hc) (fun x hx => Spec.wfCell_iff.mp (ht x hx))
   unfold Spec.isIn at this
   simp [Spec.memClause, this]
-
-theorem filter_isIn_eq {a b : List Cell} (ha : ∀ x ∈ a, x.WF) (hb : ∀ x ∈ b, x.WF) :
-    b.filter (fun c => Spec.isIn c a) = b.filter (fun c => Triangle.mem c a) :=
-  List.filter_congr fun c hc => Spec.isIn_eq_mem (hb c hc) ha
 
 theorem spec_le {a b : List Cell} (ha : ∀ x ∈ a, Spec.wfCell x = true) (hb : ∀ x ∈ b, Spec.wfCell x = true) :
     Spec.leClause a b (Triangle.le a b) = true := by
